@@ -245,23 +245,26 @@ class NumericalGradient(Operator):
         dfdx = self.domain.zero()
         dx = self.domain.zero()
 
+        # Multi-indices of all entries, to support spaces with `ndim > 1`
+        indices = list(np.ndindex(self.domain.shape))
+
         if self.method == 'backward':
             fx = self.functional(x)
-            for i in range(self.domain.size):
-                dx[i - 1] = 0  # reset step from last iteration
-                dx[i] = self.step
-                dfdx[i] = fx - self.functional(x - dx)
+            for i, idx in enumerate(indices):
+                dx[indices[i - 1]] = 0  # reset step from last iteration
+                dx[idx] = self.step
+                dfdx[idx] = fx - self.functional(x - dx)
         elif self.method == 'forward':
             fx = self.functional(x)
-            for i in range(self.domain.size):
-                dx[i - 1] = 0  # reset step from last iteration
-                dx[i] = self.step
-                dfdx[i] = self.functional(x + dx) - fx
+            for i, idx in enumerate(indices):
+                dx[indices[i - 1]] = 0  # reset step from last iteration
+                dx[idx] = self.step
+                dfdx[idx] = self.functional(x + dx) - fx
         elif self.method == 'central':
-            for i in range(self.domain.size):
-                dx[i - 1] = 0  # reset step from last iteration
-                dx[i] = self.step / 2
-                dfdx[i] = self.functional(x + dx) - self.functional(x - dx)
+            for i, idx in enumerate(indices):
+                dx[indices[i - 1]] = 0  # reset step from last iteration
+                dx[idx] = self.step / 2
+                dfdx[idx] = self.functional(x + dx) - self.functional(x - dx)
         else:
             raise RuntimeError('unknown method')
 
